@@ -255,8 +255,10 @@ func checkValueHistogramOn(e *histEnv, on tally.Scope, name string, arg tally.Bu
 			mark = len(e.rec.Log)
 		}
 		h.RecordValue(x)
-		h.RecordDuration(time.Duration(123)) // wrong kind: must change nothing
-		steps += 2
+		h.RecordDuration(time.Duration(123))                                              // wrong kind: must change nothing
+		h.Start().Stop()                                                                  // a stopwatch records a duration: nothing either on a value histogram
+		tally.NewStopwatch(time.Now().Add(time.Hour), h.(tally.StopwatchRecorder)).Stop() // a negative elapsed time
+		steps += 4
 		if e.path == pathSnapshot {
 			after := e.ts.Snapshot().Histograms()[name+"+"].Values()
 			steps++
